@@ -293,6 +293,9 @@ pub fn check_reuse(c: &Reuse) -> CaseResult {
     let mut bob = new(c.klen, idb, &pkb, &skb, ida, &pka)?;
     // one complete run with `init` as initiator and `resp` as responder; returns nothing, fails on any deviation from the standard
     let run = |init: &mut Exchange, resp: &mut Exchange, d_i: &BigUint, d_r: &BigUint, p_i: &Pt<Fp>, p_r: &Pt<Fp>, z_i: &[u8; 32], z_r: &[u8; 32], salt: u64, damaged_first: bool, tag: &str| -> Result<(), Fail> {
+        let intrude: u8 = match tag { "refused-R_A-mid-session" => 1, "refused-R_B-before-the-genuine-one" => 2, "wrong-S_A-before-the-genuine-one" => 4, "all-three-refusals" => 7, _ => 0 };
+        // an off-curve point: the honest ephemeral point of the other side with y + 1
+        let off = |q: &Pt<Fp>| { let (x, y) = q.clone().unwrap(); lib_point(&Some((x.clone(), y.add(&y.from_u64_like(1)))), &BigUint::one()) };
         let (r_i, r_r) = (sc(10 + salt, &(n - 1u32)), sc(20 + salt, &(n - 1u32)));
         let (r, _) = with_sm2_candidates(vec![to32(&r_i)], || init.exchange_1());
         let ri_lib = match r { Ok(Ok(p)) => p, o => return Err(Fail { key: format!("entry=Exchange::exchange_1 input={} outcome=failure", tag), detail: format!("{:?}", o.map(|x| x.map(|p| show_lib(&p)))) }) };
@@ -301,6 +304,19 @@ pub fn check_reuse(c: &Reuse) -> CaseResult {
         let want_r = r2::key_agreement(false, d_r, &r_r, p_i, &r2::g_mul(&r_i), z_i, z_r, c.klen).ok_or_else(|| Fail { key: "harness: reference responder infinity".into(), detail: "".into() })?;
         if sb != want_r.s_b {
             return Err(Fail { key: format!("entry=Exchange::exchange_2 input={} outcome=wrong-S_B", tag), detail: format!("library S_B {} ; GB/T 32918.3 {}", hex::encode(sb), hex::encode(want_r.s_b)) });
+        }
+        if intrude & 1 != 0 {
+            // the responder, mid-session, is offered an off-curve R_A: it must refuse, and the session in flight must not notice
+            match outcome(|| resp.exchange_2(&off(&r2::g_mul(&r_i)))) {
+                Outcome::Err(_) => {}
+                o => return Err(Fail { key: format!("entry=Exchange::exchange_2 input=off-curve-R_A outcome={}", if o.is_ok() { "accepted" } else { "panic" }), detail: o.describe() }),
+            }
+        }
+        if intrude & 2 != 0 {
+            match outcome(|| init.exchange_3(&off(&r2::g_mul(&r_r)), sb)) {
+                Outcome::Err(_) => {}
+                o => return Err(Fail { key: format!("entry=Exchange::exchange_3 input=off-curve-R_B outcome={}", if o.is_ok() { "accepted" } else { "panic" }), detail: o.describe() }),
+            }
         }
         if damaged_first {
             let mut bad = sb;
@@ -322,13 +338,28 @@ pub fn check_reuse(c: &Reuse) -> CaseResult {
         if ki.as_deref() != Some(&want_i.key[..]) || kr.as_deref() != Some(&want_i.key[..]) {
             return Err(Fail { key: format!("entry=Exchange input={} outcome=wrong-key", tag), detail: format!("K_init {:?} K_resp {:?} standard {}", ki.map(hex::encode), kr.map(hex::encode), hex::encode(&want_i.key)) });
         }
+        if intrude & 4 != 0 {
+            let mut bad = sa;
+            bad[31] ^= 1;
+            match outcome(|| resp.exchange_4(bad, &ri_lib)) {
+                Outcome::Ok(false) | Outcome::Err(_) => {}
+                o => return Err(Fail { key: format!("entry=Exchange::exchange_4 input=tampered outcome={}", if o.is_ok() { "accepted" } else { "panic" }), detail: o.describe() }),
+            }
+        }
         match outcome(|| resp.exchange_4(sa, &ri_lib)) {
             Outcome::Ok(true) => Ok(()),
             o => Err(Fail { key: format!("entry=Exchange::exchange_4 input={} outcome=rejected", tag), detail: o.describe() }),
         }
     };
-    match c.kind % 3 {
+    match c.kind % 7 {
         0 => run(&mut alice, &mut bob, &da, &db, &pa, &pb, &z_of_a, &z_of_b, 0, true, "retry-after-damaged-S_B")?,
+        3 => run(&mut alice, &mut bob, &da, &db, &pa, &pb, &z_of_a, &z_of_b, 0, false, "refused-R_A-mid-session")?,
+        4 => run(&mut alice, &mut bob, &da, &db, &pa, &pb, &z_of_a, &z_of_b, 0, false, "refused-R_B-before-the-genuine-one")?,
+        5 => run(&mut alice, &mut bob, &da, &db, &pa, &pb, &z_of_a, &z_of_b, 0, false, "wrong-S_A-before-the-genuine-one")?,
+        6 => {
+            run(&mut alice, &mut bob, &da, &db, &pa, &pb, &z_of_a, &z_of_b, 0, true, "all-three-refusals")?;
+            run(&mut bob, &mut alice, &db, &da, &pb, &pa, &z_of_b, &z_of_a, 1, false, "all-three-refusals")?;
+        }
         1 => {
             run(&mut alice, &mut bob, &da, &db, &pa, &pb, &z_of_a, &z_of_b, 0, false, "first-run")?;
             run(&mut bob, &mut alice, &db, &da, &pb, &pa, &z_of_b, &z_of_a, 1, false, "second-run-roles-swapped")?;
@@ -342,7 +373,7 @@ pub fn check_reuse(c: &Reuse) -> CaseResult {
             run(&mut alice, &mut bob, &da, &db, &pa, &pb, &z_of_a, &z_of_b, 0, false, "responder-had-started-itself")?;
         }
     }
-    pass(true, ["retry", "roles-swapped", "simultaneous-start"][(c.kind % 3) as usize])
+    pass(true, ["retry", "roles-swapped", "simultaneous-start", "refused-R_A-mid-session", "refused-R_B-first", "wrong-S_A-first", "all-refusals-both-roles"][(c.kind % 7) as usize])
 }
 
 fn pt_tamper() -> impl Strategy<Value = Option<PtTamper>> {
@@ -447,9 +478,9 @@ pub fn run(ctx: &Ctx) {
         v
     }, check_infinity_shared);
 
-    ctx.listed("reused_objects", "histories on reused Exchange objects: a damaged S_B (failure) followed by the genuine one (success, standard key); a complete run followed by a second run with the roles swapped; both parties start, one gives way — every value compared with GB/T 32918.3", || {
+    ctx.listed("reused_objects", "histories on reused Exchange objects: a damaged S_B (failure) followed by the genuine one (success, standard key); a complete run followed by a second run with the roles swapped; both parties start, one gives way; a responder that is offered an off-curve R_A in the middle of a session (refused) and then completes it; an initiator that is offered an off-curve R_B, then the genuine one; a wrong S_A followed by the right one; all of these together in both roles — every value compared with GB/T 32918.3", || {
         let mut v = Vec::new();
-        for kind in 0..3u8 {
+        for kind in 0..7u8 {
             for i in 0..4u64 {
                 v.push(Reuse { kind, seed: 0x2e15 + i * 7 + kind as u64, klen: 16 + (i as usize * 11) % 40 });
             }
